@@ -220,6 +220,11 @@ func VH_C14_db() {
 	read, mutate := vhShapeBuild(src, shape, x)
 	vAssert("C14.db.insert", db.InsertOrUpdate(src) == nil)
 	mutate(src)
+	// after a reopen the first read is served from the file (cache miss)
+	if vChoice("reopen", 2) == 1 {
+		vAssert("C14.db.close", db.Close() == nil)
+		db = Open(root)
+	}
 	r1, err := db.GetByUUID(&vShape{}, src.UUID())
 	vAssert("C14.db.get1", err == nil)
 	if err != nil {
